@@ -123,21 +123,45 @@ func describe(h [][]pipeline.Change) []string {
 // key; anything else is keyed by the shape of the history so that it is never mistaken
 // for a known finding.
 func classify(h [][]pipeline.Change, diff []string) string {
-	// cause: an added/updated ingress whose spec.defaultBackend should take over the root path
-	// of the default host (it sorts before the current owner) but is skipped because the
-	// default host is not dirty: trackAddedIngress does not pre-track the default host.
-	// Recognised by the call site: the converter logs the skip for an ingress of the batch.
-	if len(h) > 1 {
-		for _, c := range h[len(h)-1] {
-			ing, ok := c.Obj.(*networking.Ingress)
-			if !ok || c.Op == pipeline.Delete || ing.Spec.DefaultBackend == nil {
-				continue
-			}
-			want := fmt.Sprintf("skipping default backend of Ingress '%s/%s': path / was already defined on default host", ing.Namespace, ing.Name)
-			for _, l := range lastConvLog {
-				if strings.Contains(l, want) {
-					return "C01/ingress-default-backend-not-pretracked"
+	// cause: an ingress with spec.defaultBackend that is added / updated / becomes valid while
+	// the default host is not dirty: trackAddedIngress does not pre-track the default host, so
+	// the root path of the default host is not (re)assigned (skipped as already defined, or
+	// written into a host nobody rebuilds). Recognised causally: only requests answered through
+	// the default host differ, and the divergence vanishes when the spec.defaultBackend
+	// fields are taken out of the history.
+	onlyDefaultHost := len(diff) > 0
+	for _, d := range diff {
+		isRoute := strings.HasPrefix(d, "route ")
+		isBack := strings.HasPrefix(d, "backend ")
+		if !isRoute && !isBack {
+			onlyDefaultHost = false
+			break
+		}
+		if isRoute && (strings.Contains(d, "\"req.backend\"") || strings.Contains(d, "\"req.hostbackend\"")) {
+			onlyDefaultHost = false // a declared host answered
+			break
+		}
+	}
+	if onlyDefaultHost {
+		has := false
+		var stripped [][]pipeline.Change
+		for _, b := range h {
+			var nb []pipeline.Change
+			for _, c := range b {
+				if ing, ok := c.Obj.(*networking.Ingress); ok && ing.Spec.DefaultBackend != nil {
+					has = true
+					cp := ing.DeepCopy()
+					cp.Spec.DefaultBackend = nil
+					nb = append(nb, pipeline.Change{Op: c.Op, Obj: cp})
+				} else {
+					nb = append(nb, c)
 				}
+			}
+			stripped = append(stripped, nb)
+		}
+		if has {
+			if i, _, err := diverges(stripped, false, "k"); err == nil && i < 0 {
+				return "C01/ingress-default-backend-not-pretracked"
 			}
 		}
 	}
